@@ -9,6 +9,7 @@ built syntactically, calls are either replaced by a small structural model
 left as uninterpreted `call` terms.  Rules then compare the resulting decision
 table with a reference table case by case (see table.py).
 """
+from . import mir as _mir
 from .mir import strip_generics
 
 INT_TYS = {"u8": 8, "u16": 16, "u32": 32, "u64": 64, "u128": 128, "usize": 64,
@@ -541,6 +542,7 @@ class Enumerator:
         self.depth = depth
         self.paths = []
         self.headers = set(body.loops().keys())
+        _mir.TOUCHED.add(body.key)
 
     # ---- reading / writing places ----------------------------------------
     def read_local(self, st, l):
